@@ -284,6 +284,27 @@ def run_falsy_names(acc, P):
                                                cyc),
                 {'rules': rules}, not problem, got, 'S4')
         acc.outcome('undefined=%s cycle=%s' % (undefined, cyc))
+    # a rule whose NAME is not a string (an unquoted YAML key 1 / yes / ~) is
+    # not what `rule:1` / `rule:True` / `rule:None` refers to
+    for key in (1, True, None, 0, 1.5):
+        for body in ('rule:%s' % (key,), 'role:x or not rule:%s' % (key,)):
+            enf = world.bare_enforcer()
+            enf.set_rules(P.Rules({key: P._parser.parse_rule('!'),
+                                   'open': P._parser.parse_rule(body)}),
+                          use_conf=False)
+            acc.case('S4', True)
+            acc.ev()
+            try:
+                got = enf.check_rules()
+            except Exception as e:
+                got = 'raises %s' % type(e).__name__
+            if got is not False:
+                acc.violation(
+                    'S4|non-string-name|missed',
+                    'rule named %r (a %s), body %r elsewhere: check_rules() '
+                    'returned %r' % (key, type(key).__name__, body, got),
+                    {'key': repr(key), 'body': body}, False, got, 'S4')
+            acc.outcome('undefined=True cycle=False')
     for key in (0, False):
         for body, problem in (('rule:zz', True), ('@', False)):
             enf = world.bare_enforcer()
